@@ -283,7 +283,7 @@ class Part(dict):
 # properties whose texts the clauses of DF.tla come from; the stage runs inside their checks and keeps only what belongs
 # to the property being checked (harness/props/df.py::owners_of)
 DF_STAGE_THOROUGH = ("C02", "C03", "C06", "C07", "C08", "C09", "C10", "C12", "C13", "C14", "C16", "C17")
-DF_STAGE_QUICK_LITE = ("C03", "C13", "C14")
+DF_STAGE_QUICK_LITE = ("C03", "C09", "C10", "C12", "C13", "C14", "C17")
 
 
 def df_stage(ctx, df):
